@@ -201,6 +201,18 @@ def level_sexp(level):
     return '(lv %d (groups %s) (datas %s))' % (level['blockLen'], gs, ds)
 
 
+def max_hdr_bytes(m):
+    """width in bytes of the widest blockLength / numInGroup / length member the message uses"""
+    bl = [l for l in m['hdrLeaves'] if l['path'] == ['blockLength']][0]
+
+    def lv(level):
+        w = [d['lenSize'] for d in level['datas']]
+        for g in level['groups']:
+            w += [g['dim']['blSize'], g['dim']['numSize'], lv(g['level'])]
+        return max(w) if w else 0
+    return max(bl['size'], lv(m['level']))
+
+
 def msg_sexp(m):
     bl = [l for l in m['hdrLeaves'] if l['path'] == ['blockLength']][0]
     return '(msg (hdr %d %d %d) %s)' % (m['hdrSize'], bl['off'], bl['size'], level_sexp(m['level']))
